@@ -197,7 +197,7 @@ def _check_ste(case):
     for b in range(1 + v % 3):  # samples that occur in blank (vehicle-only) wells only
         rows.append({"s": "blank%d" % b, "p": "p%d" % (b % 4), "t": ["ctl", "ctl"], "d": [0.0, 0.0], "o": 0.97 + 0.01 * b})
         rows.append({"s": "blank%d" % b, "p": "p3", "t": ["ctl", "ctl"], "d": [0.0, 0.0], "o": 1.01})
-    screen = S.build_screen({"arity": 2, "control": "ctl", "rows": rows, "observed": ["p0", "p1", "p2", "p3"]})
+    screen = S.build_screen({"arity": 2, "control": "ctl", "rows": rows, "observed": ["p0", "p2", "p3"] if v % 2 else ["p0", "p1", "p2", "p3"]})
     n = len(rows)
     parent = screen.single_treatment_effects
     require(parent is not None and np.asarray(parent).shape == (n, 2), "harness", "the fixed screen has no single-effect table")
@@ -210,6 +210,25 @@ def _check_ste(case):
         view = screen.subset(sel)
         got = view.single_treatment_effects
         require(got is not None and np.asarray(got).shape == (len(idx), 2) and S.same_bits(np.asarray(got, dtype=float), parent[sel]), "view.single_treatment_effects", lambda: "rows %r: the view's single-effect table is %r, the parent's rows are %r" % (idx[:6], None if got is None else np.asarray(got).tolist()[:4], parent[sel].tolist()[:4]))
+    # views read once, then new results are entered on the parent (set_observed on a plate of single-agent wells), then read again:
+    # a view reports the parent's table as it is now
+    if v % 2:
+        kept = []
+        for idx in views[:: max(1, len(views) // 12)]:
+            sel = np.zeros(n, dtype=bool)
+            sel[idx] = True
+            vw = screen.subset(sel)
+            vw.single_treatment_effects
+            kept.append((sel, vw))
+        p1 = np.array([r["p"] == "p1" for r in rows])
+        screen.set_observed(p1, np.linspace(0.31, 0.77, int(p1.sum())))
+        now = screen.single_treatment_effects
+        require(now is not None, "harness", "the table vanished after the reveal")
+        now = np.asarray(now, dtype=float)
+        require(not S.same_bits(now, parent), "harness", "the reveal did not change the table")
+        for sel, vw in kept:
+            got = vw.single_treatment_effects
+            require(got is not None and S.same_bits(np.asarray(got, dtype=float), now[sel]), "view.single_treatment_effects_after_reveal", lambda: "a view read before new results were entered on its screen still reports %r; the parent's rows are now %r" % (np.asarray(got).tolist()[:3], now[sel].tolist()[:3]))
     return {"nontrivial": True, "labels": ["single-effect-table-of-views"], "counts": {"ste_views": len(views)}}
 
 
